@@ -22,6 +22,38 @@ CLAIMED = {
          "§5 C12"),
 }
 
+E4 = "E4 brokersim"
+MB = "model-based stateful property testing (proptest histories against the real router stepped deterministically; reference broker model"
+T4 = "Trusts: the reference model (harness/src/brokersim/model.rs, written from the MQTT rules and the statement), hook H1 (verif_turn runs the unmodified run_inner), H2/H4, and the linearisation argument of DESIGN §3/§8."
+CLAIMED.update({
+ "C04": ("E1 codec", "property-based round-trip / differential testing (proptest) of four codecs against a neutral packet model and an independent reference framer/encoder/decoder",
+         "Boundary-biased structured packets of every type, both versions, every v5 property on/off, remaining lengths on every width boundary (2 MiB boundary in the thorough tier) are encoded by each codec that can represent them: size reported == bytes written == reference frame length; decode(encode(M)+sentinel) == M leaving the sentinel; client-encoded packets decode in the broker and broker-encoded in the client to the same content; re-encoding is stable. Plus the reverse direction from reference-encoded and mutated bytes. Exploration only.",
+         "Trusts the neutral model, normalise() and the reference encoder in harness/src/codec (written from the MQTT 3.1.1/5.0 specifications).",
+         "§5 C04"),
+ "C05": ("E1 codec", "exhaustive enumeration of short inputs + mutation-based and stream-chunking property testing (proptest) of four decoders against an independent reference framer",
+         "Every first byte x 36 remaining-length encodings x bodies up to 3 (4 thorough) bytes over a 12-symbol alphabet for 4 decoders x 7 size limits (1.15e8 inputs quick), mutated valid frames, and concatenated frame streams with generated / exhaustive chunkings through direct decode, tokio_util Framed and rumqttd Network: no panic; a packet only from a complete frame with exactly the frame consumed and remaining length <= max; need-more only while the frame is incomplete; same outcome sequence for every chunking. Exploration beyond the enumerated bound.",
+         "Trusts the reference framer; 'max' is read as a bound on the remaining length (what all four check() copies implement).",
+         "§5 C05"),
+ "C06": (E4, MB + "; owed-ack queue oracle)",
+         "Histories biased to request packets from 2-4 clients: per client the sequence of ack notifications must equal the model's owed-ack list (kind, id, SUBACK codes, request order) as a prefix at every drain and completely at every idle point; QoS 2 publishes enter the acceptance log only at release (checked through the C01 delivery oracle). Exploration only.",
+         T4 + " Region R8 (UNSUBSCRIBE shapes) excluded by construction.", "§5 C06"),
+ "C08": (E4, MB + " with persistent sessions; resume-position oracle)",
+         "Histories around persistent clients with breaks (DISCONNECT, link failure, takeover) at generated points, unacknowledged forwards at the break, publishes while away, reconnect cycles with alternating clean flags: CONNACK session_present must match the session rule; after resume each QoS>0 stream restarts exactly at the oldest forward the broker had not seen acknowledged, QoS 0 streams contain everything accepted after the break; clean connects start empty. Exploration only; completeness within the retention bound.",
+         T4, "§5 C08"),
+ "C09": (E4, MB + "; client-side window/id invariants)",
+         "Backlogs up to 400 with generated ack pacing and Ready delays: after every drain <=100 unacknowledged QoS>0 forwards with unique non-zero ids (client's view), whole backlog delivered at idle with acks/Ready as the only stimulus; a second campaign sends unsolicited acks from one client: that connection must close, all others stay exact. Exploration only.",
+         T4, "§5 C09"),
+ "C15": (E4, MB + "; retained-store model with window semantics)",
+         "Histories of retained / clearing / replacing publishes interleaved with new, repeated, shared and re-made subscriptions: replays flagged retained must be owed (new non-shared subscription), carry a value that was the topic's retained message in the subscription's window, cover every topic retained throughout the window (when it fits the delivery window); live copies are never flagged (a flagged live copy is consumed as replay and then missing from the live stream). Exploration only.",
+         T4 + " Region R9 excluded by construction.", "§5 C15"),
+ "C16": (E4, MB + "; wills as accepted messages of the model)",
+         "Router part of the property: connections with/without will end by DISCONNECT or link failure, then PublishWill 0..n times: the will is an accepted message exactly when the connection ended without DISCONNECT and only once, so the C01 delivery oracle decides who must (not) receive it, incl. retained wills seen by later subscribers. The decision logic of remote() (which event is sent when) is not yet covered here (planned E5).",
+         T4 + " Takeover histories are outside the claim and not generated.", "§5 C16"),
+ "C17": (E4, MB + "; per-group delivery set oracle)",
+         "Histories with 1-2 shared groups, 3-5 clean-session members joining/leaving/dropping, bursts, ack pacing, three strategies: a message is forwarded through a group at most once, only to a client that was a member between acceptance and delivery, each member's share in acceptance order; completeness at idle for round-robin groups that never emptied. Exploration only.",
+         T4 + " Known region R10 (parked member stall) excluded from the completeness clause; R11/R14 excluded by construction.", "§5 C17"),
+})
+
 NOT_YET = "check not built yet in this revision of /verif (under construction; see DESIGN.md §5 for the planned generator and oracle)"
 
 def main():
@@ -54,7 +86,8 @@ def main():
         "engines": [
             {"name": "E2 topic", "path": "harness/src/topic.rs", "serves_properties": ["C12"], "kind_free_text": "reference matcher + exhaustive enumerator + proptest"},
             {"name": "E3 commitlog", "path": "harness/src/commitlog.rs", "serves_properties": ["C13"], "kind_free_text": "append-history model + op interpreter + proptest + short-sequence enumerator"},
-            {"name": "E4 brokersim", "path": "harness/src/brokersim/", "serves_properties": ["C01"], "kind_free_text": "deterministic single-threaded driver of the real Router (hooks H1/H2/H4), simulated clients, reference broker model, proptest histories"},
+            {"name": "E1 codec", "path": "harness/src/codec/", "serves_properties": ["C04", "C05"], "kind_free_text": "neutral packet model, generators, 4 codec adapters, reference framer/encoder/decoder, chunked stream drivers"},
+            {"name": "E4 brokersim", "path": "harness/src/brokersim/", "serves_properties": ["C01", "C06", "C08", "C09", "C15", "C16", "C17"], "kind_free_text": "deterministic single-threaded driver of the real Router (hooks H1/H2/H4), simulated clients, reference broker model, proptest histories"},
         ],
         "checks": checks,
         "notes": "All checks are `./check <id>`: it rebuilds /verif/harness (path deps on /repo) and runs target/verif/vcheck. exit 0 held / 1 VIOLATION / 2 inconclusive. Known findings: KNOWN_FINDINGS.txt.",
